@@ -50,7 +50,7 @@ CHECKS = {
     "C05": dict(
         category="exploration",
         technique="runtime monitoring: metamorphic differential monitor (original vs rewritten sources through the real pipeline, canonical documents compared) over random rewrite sequences",
-        text="Accepted generated programs and accepted mutants are rewritten by random sequences of the property's meaning-preserving steps (parenthesise, name/inline, abstract into a function, rename binders, permute, trivia, move into a module); every intermediate program must still be accepted and emit the same canonical document.",
+        text="Accepted generated programs and accepted mutants are rewritten by random sequences of the property's meaning-preserving steps (parenthesise, name/inline, abstract into a function, rename binders, permute, trivia, move into a module); every intermediate program must still be accepted and emit the same canonical document; hand-written corpus programs get random blanks, newlines and comments between any two tokens.",
         note="Side conditions make each step meaning-preserving in the language itself (DESIGN.md C05, section 8). Mutants only get the purely syntactic rewrites because of two open order-dependence findings.",
         design="5/C05",
     ),
@@ -99,7 +99,7 @@ CHECKS = {
     "C14": dict(
         category="exploration",
         technique="runtime monitoring: field-wise differential monitor of the merged output against the base (as the tool's model represents it, and raw when the model round-trips it) and against the base-less output; a slice through the real oal-cli -b",
-        text="Generated base documents over the OpenAPI object model combined with generated programs: everything outside paths and components.schemas must equal the base, paths and schema components must equal the base-less output up to generated names.",
+        text="Generated base documents over the OpenAPI object model combined with generated programs: everything outside paths and components.schemas must equal the base, paths and schema components must equal the base-less output up to generated names; the merged document is also walked by C03's validator.",
         note="Bases are closed w.r.t. what survives the merge. openapiv3's model is the trusted representation at level 1.",
         design="5/C14",
     ),
